@@ -48,6 +48,20 @@ class RejSpec(c09.ListSpec):
         self.container = kw.pop('container', None)
         c09.ListSpec.__init__(self, *a, **kw)
 
+    def _make_as(self, init, level, version):
+        """the donor text built at another validation level / in another version"""
+        from hl7apy.core import Group
+        from hl7apy.parser import parse_segment, parse_message, parse_field
+        if self.kind == 'segment':
+            return parse_segment(init, version=version, validation_level=level)
+        if self.kind == 'field':
+            return parse_field(init, self.root_name, version=version, validation_level=level)
+        if self.kind == 'group':
+            g = Group(self.root_name, version=version, validation_level=level)
+            g.value = init
+            return g
+        return parse_message(init.replace('|P|' + V, '|P|' + version), validation_level=level, find_groups=False)
+
     def build(self):
         p = c09.ListSpec.build(self)
         if self.container:
@@ -84,6 +98,13 @@ class RejSpec(c09.ListSpec):
             r.append(('rej_set_version', n))
             r.append(('rej_setidx_level', n, 0))
             r.append(('rej_setidx_level', n, 1))
+        for n in self.names:
+            r.append(('rej_dt_object', n))
+            # a child that already belongs to another element, refused by the second stage of admission
+            r.append(('rej_move_level', n))
+            r.append(('rej_move_version', n))
+        r.append(('rej_reparent_level', n1))
+        r.append(('rej_reparent_version', n0))
         if self.kind in ('segment', 'field'):
             r.append(('rej_dt_change', n1))
             r.append(('rej_dt_change', n0))
@@ -94,6 +115,7 @@ class RejSpec(c09.ListSpec):
             r.append(('rej_trav_version',))
         if self.level == STRICT:
             r.append(('rej_overflow', n0))
+            r.append(('rej_move_overflow', n0))
             r.append(('rej_value_overflow',))
             if self.kind == 'segment':
                 r.append(('rej_invalid', n0))
@@ -162,6 +184,23 @@ class RejSpec(c09.ListSpec):
             setattr(r, op[1], child(op[1], self.values[op[1]][0], version='2.4'))
         elif k == 'rej_setidx_level':
             getattr(r, op[1])[op[2]] = child(op[1], self.values[op[1]][0], level=oth)
+        elif k == 'rej_dt_object':
+            # a base datatype object assigned to a child that is not of a base datatype (or is not a leaf at all)
+            setattr(r, op[1], common.libs()[V].BASE_DATATYPES['ST']('x'))
+        elif k in ('rej_move_level', 'rej_move_version', 'rej_reparent_level', 'rej_reparent_version', 'rej_move_overflow'):
+            if k == 'rej_move_overflow':
+                d = pool['donor']
+            else:
+                # a donor built for this call only (other level / other version); it is observed before the call here and
+                # after the call with the rest of the pool, and it is not part of the state that the search continues from
+                d = self._make_as(self.donor_init, oth if k.endswith('level') else lvl, V if k.endswith('level') else '2.4')
+                pool['donor_x'] = d
+                self._before_x = (hist.er7(d), deep(d), self.reps(d))
+            c = [x for x in d.children if x.name == op[1]][0]
+            if k.startswith('rej_reparent'):
+                c.parent = r
+            else:
+                r.add(c)
         elif k == 'rej_dt_change':
             getattr(r, op[1])[0].datatype = 'HD' if self.kind == 'segment' else 'CE'
         elif k == 'rej_overflow':
@@ -209,7 +248,10 @@ class RejSpec(c09.ListSpec):
         return c09.ListSpec.model_apply(self, model, op, pool)
 
     def observe(self, pool):
-        return {k: (hist.er7(v), deep(v), self.reps(v) if k in ('root', 'donor') else None) for k, v in pool.items()}
+        return {k: (hist.er7(v), deep(v), self.reps(v) if k in ('root', 'donor', 'donor_x') else None) for k, v in pool.items()}
+
+    def state_objects(self, pool):
+        return [v for k, v in pool.items() if k != 'donor_x']
 
     def check(self, res, ctx):
         if ctx.outcome != 'raise':
@@ -218,15 +260,18 @@ class RejSpec(c09.ListSpec):
         res.nontrivial += 1
         cause = exc_class(ctx.exc)
         point = {'sid': self.sid, 'hist': [list(o) for o in ctx.hist + (op,)]}
-        for who in sorted(ctx.before):
-            b, a = ctx.before[who], ctx.after[who]
+        for who in sorted(ctx.after):
+            movers = ('rej_move_level', 'rej_move_version', 'rej_reparent_level', 'rej_reparent_version')
+            b, a = (self._before_x if who == 'donor_x' and op[0] in movers else ctx.before.get(who)), ctx.after[who]
+            if b is None:
+                continue
             if b != a:
                 what = 'encoding' if b[0] != a[0] else 'children'
                 res.violation('non-atomic|%s|%s|%s|%s|%s' % (op[0], cause, self.kind, 'STRICT' if self.level == STRICT else 'TOLERANT', who),
                               '%s: %r after %r raises %s but the %s changed (%s): %r -> %r'
                               % (self.sid, op, list(ctx.hist), cause, who, what, b[0], a[0]), point, ctx.depth)
                 return
-        bad = _inv.invariants({k: v for k, v in ctx.pool.items()})
+        bad = _inv.invariants({k: v for k, v in ctx.pool.items() if k != 'donor_x'})
         if bad:
             pre, _, _ = hist.run_history(self, ctx.hist)
             if not _inv.invariants(pre):
@@ -247,6 +292,9 @@ _add(RejSpec('seg-T', 'segment', TOLERANT, 'PID', 'PID|1||A~B~C||X^Y', A.PID_NAM
 _add(RejSpec('seg-S', 'segment', STRICT, 'PID', 'PID|1||A~B~C||X^Y', A.PID_NAMES, A.PID_VALUES, A.PID_MAX, A.PID_LONG, 'PID|9||D1~D2||DN'))
 _add(RejSpec('seg-in-msg-T', 'segment', TOLERANT, 'PID', 'PID|1||A~B', A.PID_NAMES, A.PID_VALUES, A.PID_MAX, A.PID_LONG, 'PID|9||D1',
              container='MSH|^~\\&|A|B|||20200229||ADT^A01^ADT_A01|1|P|2.5\rEVN||2020'))
+# empty targets: nothing to fall back on when a value is refused midway
+_add(RejSpec('seg-empty-S', 'segment', STRICT, 'PID', '', A.PID_NAMES, A.PID_VALUES, A.PID_MAX, A.PID_LONG, 'PID|9||D1~D2||DN'))
+_add(RejSpec('grp-empty-S', 'group', STRICT, 'ADT_A01_INSURANCE', '', A.GRP_NAMES, A.GRP_VALUES, A.GRP_MAX, None, 'IN1|9|D\rIN3|9'))
 _add(RejSpec('fld-T', 'field', TOLERANT, 'PID_3', 'I^^^AA', A.FLD_NAMES, A.FLD_VALUES, A.FLD_MAX, A.FLD_LONG, 'DI^^^DA^DT'))
 _add(RejSpec('fld-S', 'field', STRICT, 'PID_3', 'I^^^AA', A.FLD_NAMES, A.FLD_VALUES, A.FLD_MAX, A.FLD_LONG, 'DI^^^DA^DT'))
 _add(RejSpec('msg-T', 'message', TOLERANT, 'ADT_A01', A.MSG, A.MSG_NAMES, A.MSG_VALUES, A.MSG_MAX, None, A.MSG.replace('NK1|1|A', 'NK1|5|DA')))
